@@ -20,7 +20,7 @@ RULE = ('(a) every raising call of random building histories on both topology fl
         'descriptor, model hash); non-trivial when the model was non-empty')
 REQUIRED = ['target:derived-id-collision', 'raising-calls', 'raising-calls:history', 'raising-calls:targeted', 'snapshots-compared', 'target:dup-name',
             'target:dup-id', 'target:bad-kw-position', 'target:bad-interface-position', 'target:facility-bad-tuple-position',
-            'target:unknown-model', 'target:subinterface-vlan', 'target:link-stale-end', 'target:component-if-id-collision', 'target:stale-service', 'retry:raised-again', 'target:node-with-services-position', 'target:derived-name-collision']
+            'target:unknown-model', 'target:subinterface-vlan', 'target:link-stale-end', 'target:component-if-id-collision', 'target:stale-service', 'retry:raised-again', 'target:node-with-services-position', 'target:derived-name-collision', 'target:link-end-not-a-handle']
 ASSUMPTIONS = ['only argument rejections are injected (the statement is about rejected arguments); exceptions raised at arbitrary '
                'internal lines would demand a transaction mechanism the library does not promise',
                'the handle object the call was made on may be left changed (e.g. rename sets handle.name before validating); only '
@@ -229,6 +229,7 @@ def targeted_ops(rng, topo, flavour):
                 if shared:
                     bads.append(('guardrail', rng.choice(shared)[0], 'L2PTP'))
                 bads.append(('stale', ['stale', rng.randrange(2)], 'L2Bridge'))
+                bads.append(('not-a-handle', rng.choice([['none'], ['name-instead-of-handle', 'nic1-p1']]), 'L2Bridge'))
                 for why, bad, nst in bads:
                     if bad in good:
                         continue
@@ -308,6 +309,10 @@ def targeted_ops(rng, topo, flavour):
                 ends = [x[0] for x in rng.sample(free, min(mm - 1, len(free)))]
                 ends.insert(j, ['stale', rng.randrange(2)])
                 out.append(('link-stale-end', {'op': 'add_link', 'name': g.fresh('l'), 'node_id': nid('l'), 'ltype': 'Patch', 'interfaces': ends}))
+                # ... or the j-th element is not an interface handle at all (None, a name)
+                ends2 = list(ends)
+                ends2[min(j, len(ends2) - 1)] = rng.choice([['none'], ['name-instead-of-handle', 'nic1-p1']])
+                out.append(('link-end-not-a-handle', {'op': 'add_link', 'name': g.fresh('l'), 'node_id': nid('l'), 'ltype': 'Patch', 'interfaces': ends2}))
         lnames = [tm.name(l) for l in tm.ids('Link')]
         if lnames and len(free) >= 2:
             out.append(('dup-name', {'op': 'add_link', 'name': rng.choice(lnames), 'node_id': nid('l'), 'ltype': 'Patch',
